@@ -438,6 +438,14 @@ class ProgBase(HookMixin, ContextMixin, Process):
                 elif item[0] == 'gate':
                     await world.cur().gate(self.pid, item[1])
                     self._t('resumed', idx)
+                elif item[0] == 'await_child':
+                    # step a child in this very task (it shares the parent's context)
+                    cpid = f'{self.pid}/{item[2]}'
+                    world.cur().extra.setdefault('parent', {})[cpid] = self
+                    child = make_class(item[1])(pid=cpid, loop=self.loop)
+                    world.cur().extra.setdefault('children', []).append(child)
+                    await child.step_until_terminated()
+                    self._t('after-await-child', idx, child=cpid, child_state=child.state.value)
                 else:
                     self._item(idx, item)
             _hook_point(self, 'step:' + step_name(idx), 'post')
